@@ -10,6 +10,7 @@ open Ysgo
 structure Host where
   log : List String := []
   ctlOpen : Bool := false
+  ticks : Nat := 0
 
 def showNum (x : F64) : String := if x.isNaN then "N:nan" else "N:" ++ toString x.bits
 def showVal : Value → String
@@ -19,13 +20,14 @@ def showVal : Value → String
 def showVals (vs : List Value) : String := Obs.join "," (vs.map showVal)
 
 def hostEnv (extraCmds : List String) : Env Host where
-  knows f := f == "probe" || f == "two" || f == "boom" || f == "nr"
+  knows f := f == "probe" || f == "two" || f == "boom" || f == "nr" || f == "tick"
   call f args h :=
     let h := { h with log := h.log ++ [f ++ "(" ++ showVals args ++ ")"] }
     match f, args with
     | "probe", [v] => (.ok (some v), h)
     | "two", [a, _] => (.ok (some a), h)
     | "nr", _ => (.ok none, h)
+    | "tick", [] => (.ok (some (.num (F64.ofNat (h.ticks + 1)))), { h with ticks := h.ticks + 1 })
     | _, _ => (.err .callFailed, h)
   cmd name args h :=
     let logged : Host := { h with log := h.log ++ ["cmd:" ++ Obs.esc name ++ "(" ++ showVals args ++ ")"] }
